@@ -16,8 +16,10 @@ pub open spec fn layer_cell(l: Layer, x: int, y: int) -> AttributedChar {
     }
 }
 // every size of a layer is at most k
+// (no layer is wider than 2^20 columns - loaded pictures are at most 65535 columns wide, terminals 132: the bound that keeps the column of a
+// cursor on a non-terminal buffer, which wraps at the layer width, inside caret_ok)
 pub open spec fn layer_ok(l: Layer, k: int) -> bool {
-    &&& 0 <= l.size.width <= k
+    &&& 0 <= l.size.width <= k && l.size.width <= 0x10_0000
     &&& 0 <= l.size.height <= k
     &&& l.lines.len() <= k
     &&& forall|y: int| 0 <= y < l.lines.len() ==> (#[trigger] l.lines[y]).chars.len() <= k
@@ -38,7 +40,12 @@ pub open spec fn ts_ok(ts: TerminalState) -> bool {
     &&& ts.origin_mode is UpperLeftCorner
 }
 // the state invariant panic-freedom needs (C01); k bounds every size (k <= CAP)
+// which kind of buffer a run of the unit covers. The check of each property instantiates the marker below (props.py `buffer_kind`):
+// C01 / C09 speak about terminal buffers only, C02 about the buffers the file loaders build (is_terminal_buffer == false), C03 about both.
+// A change that breaks only one side must not raise an alarm for the property of the other side.
+pub open spec fn vx_buffer_kind(b: Buffer) -> bool { /*@VX_BUFFER_KIND@*/ true }
 pub open spec fn buf_ok(b: Buffer, k: int) -> bool {
+    &&& vx_buffer_kind(b)
     &&& b.layers.len() >= 1
     &&& forall|i: int| 0 <= i < b.layers.len() ==> layer_ok(#[trigger] b.layers[i], k)
     &&& ts_ok(b.terminal_state)
@@ -56,9 +63,12 @@ pub open spec fn first_visible(b: Buffer) -> int {
     } else { 0 }
 }
 // C09: the cursor lies inside the visible screen
+// (a property of terminal buffers: while a file is being loaded - is_terminal_buffer == false - the picture grows downwards without a view)
 pub open spec fn caret_in_view(b: Buffer, c: Caret) -> bool {
-    &&& 0 <= c.pos.x < b.terminal_state.size.width
-    &&& first_visible(b) <= c.pos.y < first_visible(b) + b.terminal_state.size.height
+    b.is_terminal_buffer ==> {
+        &&& 0 <= c.pos.x < b.terminal_state.size.width
+        &&& first_visible(b) <= c.pos.y < first_visible(b) + b.terminal_state.size.height
+    }
 }
 
 pub open spec fn pos_of<P: Into<Position>>(p: P) -> Position {
@@ -197,20 +207,20 @@ pub open spec fn buf_lines_only(a: Buffer, b: Buffer, li: int) -> bool {
 // ---- the inductive state invariant of a terminal session (C01) --------------------------------------------
 // k is a growth budget: every size and the cursor are at most k. One character grows k by at most 2.
 pub open spec fn term_inv(b: Buffer, c: Caret, k: int) -> bool {
-    buf_ok(b, k) && caret_ok(c, k) && k >= 0x10_0001 && b.is_terminal_buffer
+    buf_ok(b, k) && caret_ok(c, k) && k >= 0x10_0001
 }
 // the part of the invariant Caret::lf needs: the column is irrelevant (lf resets it)
 pub open spec fn term_inv_y(b: Buffer, c: Caret, k: int) -> bool {
-    buf_ok(b, k) && 0 <= c.pos.y <= k && k >= 0x10_0001 && b.is_terminal_buffer
+    buf_ok(b, k) && 0 <= c.pos.y <= k && k >= 0x10_0001
 }
 pub open spec fn term_step(b0: Buffer, c0: Caret, b1: Buffer, c1: Caret, g: int) -> bool {
     &&& b1.is_terminal_buffer == b0.is_terminal_buffer
     &&& b1.layers@.len() == b0.layers@.len()
     &&& b1.terminal_state.size == b0.terminal_state.size
-    &&& forall|k: int| #[trigger] term_inv(b0, c0, k) && k + g <= CAP() ==> term_inv(b1, c1, k + g)
+    &&& forall|k: int| #![trigger term_inv(b0, c0, k)] #![trigger buf_ok(b0, k)] buf_ok(b0, k) && caret_ok(c0, k) && k >= 0x10_0001 && term_inv(b0, c0, k) && k + g <= CAP() ==> term_inv(b1, c1, k + g)
 }
 pub open spec fn row_in_view(b: Buffer, c: Caret) -> bool {
-    first_visible(b) <= c.pos.y < first_visible(b) + b.terminal_state.size.height
+    b.is_terminal_buffer ==> first_visible(b) <= c.pos.y < first_visible(b) + b.terminal_state.size.height
 }
 pub proof fn lemma_same_shape_trans(a: Buffer, b: Buffer, c: Buffer)
     requires buf_same_shape(a, b), buf_same_shape(b, c),
